@@ -653,10 +653,15 @@ def int_value(n):
             return None
         return wrap_to_type(r, dtype(n))
     if k == 'UnaryExprOrTypeTraitExpr' and n.get('name') == 'sizeof':
-        t = n.get('argType', {}).get('desugaredQualType') or n.get('argType', {}).get('qualType')
-        if t is None and n.get('inner'):
-            t = dtype(n['inner'][0])
-        return sizeof_type(t)
+        at = n.get('argType', {})
+        cands = [at.get('qualType'), at.get('desugaredQualType')]
+        if n.get('inner'):
+            cands += [qtype(n['inner'][0]), dtype(n['inner'][0])]
+        for t in cands:
+            v = sizeof_type(t) if t else None
+            if v is not None:
+                return v
+        return None
     if k == 'DeclRefExpr':
         rd = n.get('referencedDecl') or {}
         if rd.get('kind') == 'EnumConstantDecl':
@@ -718,6 +723,9 @@ def sizeof_type(t):
     m = re.search(r'(?:^|::)(?:be|le|re)_(float|double)$', t)
     if m:
         return 4 if m.group(1) == 'float' else 8
+    m = re.search(r'(?:^|::)(?:big|little|reverse|same)_endian<([^,<>]+)(?:,.*)?>$', t)
+    if m:
+        return sizeof_type(m.group(1).strip())
     return None
 
 
